@@ -97,7 +97,10 @@ restarted on that image; `restart` = a clean restart (all of them are durable). 
 executes exactly these definitions against the real reaper / sequencer / producer. -/
 
 inductive Op
-  | mempool (txs : List Bytes)     -- what the execution layer's `GetTxs` answers from now on
+  | mempool (txs : List Bytes)     -- what the execution layer's `GetTxs` answers from now on (ASSUMPTION: `GetTxs` is idempotent,
+                                   -- a transaction stays in the mempool until the execution layer removes it)
+  | mempoolDrain (txs : List Bytes) -- a DRAINING mempool (`apps/testapp/kv` `GetTxs` empties its channel): `txs` is answered
+                                   -- by exactly one `GetTxs` call, afterwards the mempool is empty
   | reap                           -- one `Reaper.SubmitTxs`
   | produce                        -- one `publishBlock`
   | produceFail                    -- one `publishBlock` during which `ExecuteTxs` fails (or the node dies in it, when a `restart` follows)
@@ -110,6 +113,7 @@ structure RunSt where
   before : Disk := {}
   ws : List FW := []
   mempool : List Bytes := []
+  drain : Bool := false            -- the next `GetTxs` empties the mempool
   deriving Inhabited
 
 /-- the durable image when the first `k` writes of the last operation have been applied -/
@@ -123,8 +127,10 @@ def recover (c : Cfg) (s : RunSt) (k : Nat) : Option RunSt :=
 
 /-- one operation; `none` = the node did not come up again -/
 def opStep (c : Cfg) (s : RunSt) : Op → Option RunSt
-  | .mempool txs => some { s with mempool := txs }
-  | .reap => some { s with n := (reap c s.n s.mempool).1, before := diskOf s.n, ws := (reap c s.n s.mempool).2 }
+  | .mempool txs => some { s with mempool := txs, drain := false }
+  | .mempoolDrain txs => some { s with mempool := txs, drain := true }
+  | .reap => some { s with n := (reap c s.n s.mempool).1, before := diskOf s.n, ws := (reap c s.n s.mempool).2,
+                           mempool := if s.drain then [] else s.mempool }
   | .produce => some { s with n := (produce c s.n).1, before := diskOf s.n, ws := (produce c s.n).2.1 }
   | .produceFail => some { s with n := (produce c s.n .fail).1, before := diskOf s.n, ws := (produce c s.n .fail).2.1 }
   | .restart => recover c s s.ws.length
